@@ -29,6 +29,8 @@ func (s step) label() string {
 	switch s.Kind {
 	case "add", "addition":
 		return s.Kind + "(" + strings.Join(s.Txns, "+") + ")"
+	case "addspan":
+		return fmt.Sprintf("add(%s planned@%d..%d)", s.Txns[0], s.I, s.I+s.J)
 	case "range":
 		return fmt.Sprintf("range(%d,%d)", s.I, s.J)
 	case "compactall":
@@ -162,8 +164,11 @@ func (sc *scenario) call(w *mc.World, ms *mons, ps procSpec, s step, prop string
 			p.Local["h"] = n
 			p.Local["hs"] = stk.HashSize(cfg)
 			return "ok"
-		case "add":
+		case "add", "addspan":
 			t := stk.Txn(s.Txns[0])
+			if s.Kind == "addspan" {
+				t.Span = uint64(s.J)
+			}
 			var pend []*monitor.Pending
 			myhs := hs
 			if v, ok := p.Local["hs"].(int); ok {
@@ -171,6 +176,10 @@ func (sc *scenario) call(w *mc.World, ms *mons, ps procSpec, s step, prop string
 			}
 			err := st.Add(func(wr *reftable.Writer) error {
 				ui := st.NextUpdateIndex()
+				if s.Kind == "addspan" {
+					// a batch planned earlier: the caller fixed its update indices before taking the lock
+					ui = uint64(s.I)
+				}
 				if ms.ref != nil {
 					pend = append(pend, ms.ref.Begin(p.ID, t, ui))
 				}
